@@ -38,11 +38,14 @@ AttrPool == << <<99, 110>>,                                                   \*
                <<48, 46, 48>>,                                                 \* 0.0
                <<67, 78>>,                                                     \* CN      (same description, other letter case)
                <<79, 66, 74, 69, 67, 84, 67, 76, 65, 83, 83>>,                 \* OBJECTCLASS
-               <<67, 110, 59, 76, 65, 78, 71, 45, 101, 110>> >>                \* Cn;LANG-en
+               <<67, 110, 59, 76, 65, 78, 71, 45, 101, 110>>,                  \* Cn;LANG-en
+               <<100, 110>> >>                                                 \* dn      (an attribute named like the dnattrs keyword)
 RulePool == << <<99, 97, 115, 101, 69, 120, 97, 99, 116, 77, 97, 116, 99, 104>>,   \* caseExactMatch
                <<49, 46, 50, 46, 51>>,                                              \* 1.2.3
                <<50, 46, 53, 46, 49, 51, 46, 53>>,                                  \* 2.5.13.5
-               <<120, 45, 49>> >>                                                   \* x-1
+               <<120, 45, 49>>,                                                     \* x-1
+               <<100, 110, 83, 117, 98, 116, 114, 101, 101, 77, 97, 116, 99, 104>>, \* dnSubtreeMatch (begins like the dnattrs keyword)
+               <<100, 110, 45, 49>> >>                                              \* dn-1
 \* value units: the adversarial alphabet of C13 (each unit is raw-able only if it is `normal` and well-formed UTF-8)
 UnitPool == << <<97>>, <<42>>, <<40>>, <<41>>, <<92>>, <<0>>, <<32>>, <<58>>, <<61>>, <<195, 169>>, <<126>>, <<60>>, <<10>>, <<127>>,
                <<171>>, <<255>>, <<240, 159, 152, 128>>, <<62>>, <<38>>, <<124>>, <<33>>, <<50, 97>>, <<226, 130, 172>> >>
